@@ -36,10 +36,10 @@ def register(PROPS):
                 'routes it somewhere (layer a) / the script has at least one chunk and was played to its end (layer b)',
         'bound': {
             'quick': 'layer (a): 24 rows x {alt50, big} x exit 0; 8 knobs (cwd, umask, shell, IFILE, no ORGANIZER, no ATTENDEE, MAIL-RUN, '
-                     'two ATTENDEEs) x 5 rows; SIGTERM/SIGKILL x 2 rows (92 runs); relative OFILE/EFILE + LOCATION x 24 rows; 6 umasks x rows R12 R16 R20.  layer (b): 6 pipe rows x all interleavings of <= 2 O, '
+                     'two ATTENDEEs) x 5 rows; SIGTERM/SIGKILL x 2 rows (92 runs); relative OFILE/EFILE + LOCATION x 24 rows; 6 umasks x rows R12 R16 R20; OFILE (EFILE) = /dev/null x every row that has one (28 runs).  layer (b): 6 pipe rows x all interleavings of <= 2 O, '
                      '<= 2 E + X x all batchings (165 scripts) x chunk sizes {1, 4096, 65536} equal on both streams (2970 schedules)',
             'thorough': 'layer (a): 24 rows x 6 jobs (silent, 3 lines out, 3 lines err, 50 alternating lines, 200 KiB to each stream in 4 KiB '
-                        'writes, stdin echo) x exit {0, 3, SIGTERM, SIGKILL}; 8 knobs x 24 rows x {alt50, cat} (960 runs); relative OFILE/EFILE + LOCATION x 24 rows x {alt50, big}; 6 umasks x the 6 rows without mail.  layer (b): 6 '
+                        'writes, stdin echo) x exit {0, 3, SIGTERM, SIGKILL}; 8 knobs x 24 rows x {alt50, cat} (960 runs); relative OFILE/EFILE + LOCATION x 24 rows x {alt50, big}; 6 umasks x the 6 rows without mail; OFILE (EFILE) = /dev/null x every row that has one.  layer (b): 6 '
                         'pipe rows x all interleavings of <= 3 O, <= 3 E + X x all batchings (2229 scripts) x all 9 pairs of chunk sizes '
                         '{1, 4096, 65536}; the 18 pipe-less rows x <= 1+1 chunks (120600 schedules)',
         },
